@@ -54,7 +54,7 @@ func libGoroutines() []string {
 	return out
 }
 
-var c20Endings = []string{"Close", "CloseNow", "peer-close-then-Close", "protocol-error-then-CloseNow", "ctx-expiry-then-Close", "cut-eof-then-Close", "cut-err-then-CloseNow", "silent-peer-Close", "peer-close-then-CloseNow", "closeread-data-then-Close", "closeread-partial-data-stall-then-CloseNow", "closeread-partial-data-stall-then-Close", "write-error-then-CloseNow", "write-error-then-Close"}
+var c20Endings = []string{"Close", "CloseNow", "peer-close-then-Close", "protocol-error-then-CloseNow", "ctx-expiry-then-Close", "cut-eof-then-Close", "cut-err-then-CloseNow", "silent-peer-Close", "peer-close-then-CloseNow", "closeread-data-then-Close", "closeread-partial-data-stall-then-CloseNow", "closeread-partial-data-stall-then-Close", "write-error-then-CloseNow", "write-error-then-Close", "Close-unsendable-code", "Close-oversize-reason"}
 
 func runC20(r *Run) {
 	t := r.Tape
@@ -310,6 +310,10 @@ func runC20(r *Run) {
 			} else {
 				cerr = c.Close(websocket.StatusNormalClosure, "done")
 			}
+		case 14:
+			cerr = c.Close(websocket.StatusCode([]int{1005 + 1, 999, 5000, 1015}[idx%4]), "invalid code")
+		case 15:
+			cerr = c.Close(websocket.StatusInternalError, strings.Repeat("long reason ", 12))
 		case 12, 13:
 			// the transport fails a write half way (short write + error)
 			out := rc.Lib.Out()
